@@ -6,12 +6,15 @@ package main
 import (
 	"crypto/sha1"
 	"fmt"
+	"math"
 	"math/rand"
 	"reflect"
 	"sort"
 	"strconv"
 	"strings"
 	"time"
+
+	"github.com/c2h5oh/datasize"
 )
 
 const propDir = "/var/tmp/c17-props"
@@ -246,6 +249,9 @@ func stringFor(key string, tags []string) string {
 		if t == "endpoint" {
 			return "127.0.0.1:8080"
 		}
+		if t == "url-path" {
+			return "/a/b"
+		}
 		if strings.HasPrefix(t, "eq=") {
 			return strings.SplitN(strings.TrimPrefix(t, "eq="), "|", 2)[0]
 		}
@@ -345,8 +351,9 @@ type gcase struct {
 	at   string // Go field names from the root to the field whose value is checked ("-" = not visible)
 	fk   string // kind of that field: bool str int:64 uint:64 float:64 dur
 	raw  string // placeholder cases: the text the resolver returns
-	want string // expected decoded value (valid / null / base)
-	exp  string // reject | accept | value | cast
+	want string // expected decoded value (valid / null / base); exp=meets: the value the field is given
+	tags string // exp=meets: the field's constraints, v(tag,...)
+	exp  string // reject | accept | value | cast | meets
 	cfg  any
 	uses bool // cfg contains a placeholder
 	env  map[string]string // generated variables the case needs besides envTable
@@ -493,6 +500,9 @@ func (w *walker) walkField(fpath string, f flatField, set func(any) any, at stri
 	}
 	if isSpecial(ft) {
 		w.add(gcase{kind: "mistyped", path: fpath, at: "-", exp: "reject", cfg: set([]any{1})})
+		if isSize(ft) {
+			w.sizeCases(fpath, tags, set)
+		}
 		return
 	}
 	if fk := kindName(ft); fk != "" {
@@ -555,7 +565,9 @@ func (w *walker) scalarCases(fpath string, f flatField, fk string, tags []string
 	_, minTag := hasTag(tags, "min")
 	_, isEP := hasTag(tags, "endpoint")
 	_, isEq := hasTag(tags, "eq")
+	_, isPath := hasTag(tags, "url-path")
 	base := strings.SplitN(fk, ":", 2)[0]
+	w.consCases(fpath, f, fk, tags, set, at)
 	// mistyped
 	var bad any
 	switch base {
@@ -580,6 +592,9 @@ func (w *walker) scalarCases(fpath string, f flatField, fk string, tags []string
 	if base == "int" || base == "uint" || base == "dur" {
 		// a number with a fractional part is no integer (times: 2.7); a whole float is (JSON numbers are floats)
 		w.add(gcase{kind: "mistyped", path: fpath + "#fraction", at: "-", exp: "reject", cfg: set(2.5)})
+		// no integer either: an infinity, not-a-number (YAML .inf / .nan)
+		w.add(gcase{kind: "mistyped", path: fpath + "#inf", at: "-", exp: "reject", cfg: set(math.Inf(1))})
+		w.add(gcase{kind: "mistyped", path: fpath + "#nan", at: "-", exp: "reject", cfg: set(math.NaN())})
 	}
 	// out of range, one per validate tag
 	for _, t := range tags {
@@ -643,7 +658,7 @@ func (w *walker) scalarCases(fpath string, f flatField, fk string, tags []string
 		if isEP {
 			s = "127.0.0.2:9090"
 		}
-		if isEq {
+		if isEq || isPath {
 			s = stringFor(f.key, tags)
 		}
 		valid, want = s, tstr(s)
@@ -651,7 +666,7 @@ func (w *walker) scalarCases(fpath string, f flatField, fk string, tags []string
 		if isEP {
 			p = pv{"C17_EP", "ep", "127.0.0.3:7070"}
 		}
-		if isEq {
+		if isEq || isPath {
 			p = pv{}
 		}
 	case "int":
@@ -694,7 +709,7 @@ func (w *walker) scalarCases(fpath string, f flatField, fk string, tags []string
 	w.add(gcase{kind: "ph-nofile", path: fpath, at: "-", fk: fk, exp: "reject", cfg: set("${property:/var/tmp/c17-props/absent.properties#str}"), uses: true})
 	switch base {
 	case "str":
-		if !isEP && !isEq {
+		if !isEP && !isEq && !isPath {
 			w.add(gcase{kind: "ph-embed", path: fpath, at: at, fk: fk, exp: "value", want: tstr("a-hello-b"), cfg: set("a-${env:C17_STR}-b"), uses: true})
 			w.add(gcase{kind: "ph-short", path: fpath, at: at, fk: fk, raw: "hello", exp: "cast", cfg: set("${C17_STR}"), uses: true})
 			w.add(gcase{kind: "ph-multi", path: fpath, at: at, fk: fk, exp: "value", want: tstr("hellohello"), cfg: set("${env:C17_STR}${env:C17_STR}"), uses: true})
@@ -717,6 +732,124 @@ func (w *walker) scalarCases(fpath string, f flatField, fk string, tags []string
 		w.add(gcase{kind: "ph-badlit", path: fpath, at: at, fk: fk, raw: "hello", exp: "cast", cfg: set(ph("env", "C17_STR")), uses: true})
 	case "bool", "float", "dur":
 		w.add(gcase{kind: "ph-badlit", path: fpath, at: at, fk: fk, raw: "hello", exp: "cast", cfg: set(ph("env", "C17_STR")), uses: true})
+	}
+}
+
+// ---- values next to the bounds of every constraint (exp=meets: the Spec derives the demand from tags + value)
+
+var epHosts = []string{"", "localhost", "127.0.0.1", "example.org", "a-b.c", "256.1.1.1", "host_1", "-bad", "a..b", "a b",
+	"example.org.", "exa$mple", "[::1]", "[localhost]", "[]", "h:", "a.-b", "ü"}
+var epHostsShort = []string{"", "localhost", "127.0.0.1", "[::1]"}
+var epPorts = []string{"1", "80", "65535", "65536", "0", "99999", "-1", "+80", "080", "00", "http", "80a", "", " 80", "8 0", "1e3",
+	"0x50", "65_535", "99999999999999999999"}
+var epMalformed = []string{"", ":", "::", "no-port", "a:b:80", "[::1]", "[::1]80", "[a:80", "a]:80", "a[:80", "[[a]:80", "[a]]:80",
+	"[a]b:80", ":80:", "host:", "[::1]:"}
+var urlPaths = []string{"/a", "/a/b", "/~user/:x@y;z=1", "/%41", "/a.b-c_d", "/1", "", "/", "a", "a/b", "/a/", "//a", "/a//b", "/a b",
+	"/a?x", "/a#", "/ü", "/a\n", "/a/b/", "/{x}", "/a|b"}
+
+func isSize(t reflect.Type) bool { return t == sizeType }
+
+func tagsTerm(tags []string) string {
+	var xs []string
+	for _, t := range tags {
+		xs = append(xs, enc(t))
+	}
+	return node("v", xs...)
+}
+
+func (w *walker) consCases(fpath string, f flatField, fk string, tags []string, set func(any) any, at string) {
+	tt := tagsTerm(tags)
+	base := strings.SplitN(fk, ":", 2)[0]
+	meets := func(label string, cfgVal any, val string) {
+		w.add(gcase{kind: "cons", path: fpath + "#" + label, at: at, fk: fk, exp: "meets", want: val, tags: tt, cfg: set(cfgVal)})
+	}
+	for _, t := range tags {
+		switch {
+		case t == "endpoint" && base == "str":
+			hosts := epHostsShort
+			if w.root == "synth" {
+				hosts = epHosts
+			}
+			for _, h := range hosts {
+				for _, p := range epPorts {
+					meets("endpoint", h+":"+p, tstr(h+":"+p))
+				}
+			}
+			for _, e := range epMalformed {
+				meets("endpoint-form", e, tstr(e))
+			}
+		case t == "url-path" && base == "str":
+			for _, u := range urlPaths {
+				meets("url-path", u, tstr(u))
+			}
+		case strings.HasPrefix(t, "min-time=") || strings.HasPrefix(t, "max-time="):
+			d, err := time.ParseDuration(t[strings.Index(t, "=")+1:])
+			if err != nil || base != "dur" {
+				continue
+			}
+			for _, ns := range []int64{int64(d) - 1, int64(d), int64(d) + 1} {
+				meets(t, fmt.Sprintf("%dns", ns), node("i", strconv.FormatInt(ns, 10)))
+				meets(t+"-int", int(ns), node("i", strconv.FormatInt(ns, 10)))
+			}
+		case strings.HasPrefix(t, "min="):
+			n, err := strconv.Atoi(strings.TrimPrefix(t, "min="))
+			if err != nil {
+				continue
+			}
+			switch base {
+			case "int":
+				for _, v := range []int{n - 1, n, n + 1} {
+					meets(t, v, node("i", strconv.Itoa(v)))
+				}
+			case "uint":
+				for _, v := range []int{n - 1, n, n + 1} {
+					if v >= 0 {
+						meets(t, v, node("u", strconv.Itoa(v)))
+					}
+				}
+			case "float":
+				for _, v := range []float64{float64(n) - 0.5, float64(n), float64(n) + 0.5} {
+					meets(t, v, node("d", fmtFloat(v, 64)))
+				}
+			}
+		}
+	}
+}
+
+// sizeCases: min-size / max-size on a datasize.ByteSize field (the text form is parsed by the library: the demand is
+// stated here, the model predicts nothing)
+func (w *walker) sizeCases(fpath string, tags []string, set func(any) any) {
+	for _, t := range tags {
+		var bound datasize.ByteSize
+		isMin := strings.HasPrefix(t, "min-size=")
+		if !isMin && !strings.HasPrefix(t, "max-size=") {
+			continue
+		}
+		if bound.UnmarshalText([]byte(t[strings.Index(t, "=")+1:])) != nil {
+			continue
+		}
+		other := func(v uint64) bool { // the other bounds of the field hold?
+			for _, o := range tags {
+				var b datasize.ByteSize
+				if i := strings.Index(o, "="); i > 0 && b.UnmarshalText([]byte(o[i+1:])) == nil {
+					if strings.HasPrefix(o, "min-size=") && v < b.Bytes() {
+						return false
+					}
+					if strings.HasPrefix(o, "max-size=") && v > b.Bytes() {
+						return false
+					}
+				}
+			}
+			return true
+		}
+		for _, v := range []uint64{bound.Bytes() - 1, bound.Bytes(), bound.Bytes() + 1} {
+			exp := "accept"
+			if !other(v) {
+				exp = "reject"
+			}
+			w.add(gcase{kind: "cons", path: fpath + "#" + t, at: "-", exp: exp, cfg: set(int(v))})
+			w.add(gcase{kind: "cons", path: fpath + "#" + t + "-text", at: "-", exp: exp, cfg: set(fmt.Sprintf("%dB", v))})
+		}
 	}
 }
 
@@ -804,6 +937,13 @@ type synthConfig struct {
 	Any  interface{}         `config:"any"`
 	Emb  synthEmb            `config:",squash"`
 	// one field without constraints per kind (generated placeholder values land here)
+	// one field per validation of core/config/validations.go that no registered component uses
+	MaxWait time.Duration     `config:"max-wait" validate:"max-time=3h"`
+	Window  time.Duration     `config:"window" validate:"min-time=1s,max-time=1m"`
+	Addr    string            `config:"addr" validate:"endpoint"`
+	UPath   string            `config:"upath" validate:"url-path"`
+	Size    datasize.ByteSize `config:"size" validate:"min-size=1KB,max-size=1MB"`
+	Ratio   float64           `config:"ratio" validate:"min=1"`
 	I64   int64         `config:"i64"`
 	U64   uint64        `config:"u64"`
 	Note  string        `config:"note"`
@@ -823,7 +963,8 @@ type synthEmb struct {
 
 func synthDefault() *synthConfig {
 	return &synthConfig{U8: 8, U16: 16, U32: 32, U: 1, I8: -8, I16: -16, I32: 32, F32: 0.5, F64: 1.5, Name: "n", Wait: time.Second,
-		On: true, Sub: &synthSub{Level: 3, Label: "l"}, Emb: synthEmb{Depth: 2, Mode: "a"}}
+		On: true, Sub: &synthSub{Level: 3, Label: "l"}, Emb: synthEmb{Depth: 2, Mode: "a"},
+		MaxWait: 5 * time.Second, Window: 30 * time.Second, Addr: "127.0.0.1:1", UPath: "/x", Size: 2 * datasize.KB, Ratio: 2}
 }
 
 func rootTarget(root string) (reflect.Type, reflect.Value) {
@@ -874,8 +1015,12 @@ func (c gcase) line() string {
 		}
 		return s
 	}
-	return fmt.Sprintf("kind=%s root=%s path=%s exp=%s at=%s fk=%s raw=%s want=%s env=%s props=%s cfg=%s",
-		c.kind, enc(c.root), enc(c.path), c.exp, enc(c.at), opt(c.fk), tstr(c.raw), opt(c.want), env, props, cfgText)
+	tags := c.tags
+	if tags == "" {
+		tags = "v()"
+	}
+	return fmt.Sprintf("kind=%s root=%s path=%s exp=%s at=%s fk=%s raw=%s want=%s tags=%s env=%s props=%s cfg=%s",
+		c.kind, enc(c.root), enc(c.path), c.exp, enc(c.at), opt(c.fk), tstr(c.raw), opt(c.want), tags, env, props, cfgText)
 }
 
 func allRoots() []string {
@@ -980,12 +1125,16 @@ var rawPool = map[string][]string{
 	"int": {"0", "1", "-1", "+7", "-0", "42", "127", "128", "-128", "-129", "255", "256", "32767", "32768", "-32768", "-32769",
 		"65535", "65536", "2147483647", "2147483648", "-2147483648", "-2147483649", "4294967295", "4294967296",
 		"9223372036854775807", "9223372036854775808", "-9223372036854775808", "-9223372036854775809",
-		"18446744073709551615", "18446744073709551616", "abc", "1.5", "", " 42", "4 2", "-", "+", "--1", "1-", "true", "7s"},
-	"float": {"0", "1", "-1", "2.5", "-0.5", "+0.25", "100", "0.125", "12345.5", "-0.0", "abc", "", "1.2.3", "-", "1,5", "true"},
+		"18446744073709551615", "18446744073709551616", "abc", "1.5", "", " 42", "4 2", "-", "+", "--1", "1-", "true", "7s",
+		// strconv with base 0: prefixes, a leading 0 is octal, underscores between digits
+		"0x10", "0X1f", "0b101", "0B1", "0o17", "0O7", "017", "00", "-0x80", "+0b1", "0x7f", "0x80", "0xff", "0x100", "-0x81",
+		"1_000", "0_7", "0x_1", "0x1_f", "1_0_0", "_1", "1_", "1__0", "08", "0x", "0b", "0o", "0b2", "0xg", "0_x1", "0x_", "_", "42 "},
+	"float": {"0", "1", "-1", "2.5", "-0.5", "+0.25", "100", "0.125", "12345.5", "-0.0", "abc", "", "1.2.3", "-", "1,5", "true",
+		"1e3", "1.5E-2", ".5", "5.", "-.5e1", "1e+2", "0.1e1", "25e-2", "1e", "e3", ".", "1e+", "1.5e2.5", "+.e1", " 1"},
 	"bool":  {"1", "t", "T", "TRUE", "true", "True", "0", "f", "F", "FALSE", "false", "False", "yes", "no", "tRuE", "", "2", "on", " true"},
 	"dur": {"0", "7s", "1m30s", "250ms", "-5s", "+3s", "1h2m3s4ms5us6ns", "90m", "1000", "-1", "5x", "s", "1s2", "", "abc", "1 s", "--1s",
 		"9223372036854775807", "9223372036854775808", "2562047h"},
-	"str": {"", "hello", "a b", "with=eq", "with#hash", "${env:C17_STR}", "x:y", "%41", "ü", "tab\there", "'q'", "{}", "$", "${", "}"},
+	"str": {"", "hello", "a b", " padded ", "trail ", " lead", "with=eq", "with#hash", "${env:C17_STR}", "x:y", "%41", "ü", "tab\there", "'q'", "{}", "$", "${", "}"},
 }
 
 func poolFor(fk string) []string {
@@ -1033,7 +1182,7 @@ var propKeyPool = []string{"a", "ab", "abc", "b", "ba", "a_b", "A", "a.b", "time
 
 func randPropLine(r *rand.Rand) string {
 	k := propKeyPool[r.Intn(len(propKeyPool))]
-	v := []string{"1", "22", "x", "y z", "", "v=w", "3s"}[r.Intn(7)]
+	v := []string{"1", "22", "x", "y z", "", "v=w", "3s", " lead", "trail ", " 7 "}[r.Intn(10)]
 	switch r.Intn(12) {
 	case 0:
 		return k // no `=`
@@ -1086,6 +1235,9 @@ func propCases(r *rand.Rand, tier string) []gcase {
 	add("ph-propx", []string{"a=1", "a=2"}, "a", i64)
 	add("ph-propx", []string{"a", "a=b=c"}, "a", note)
 	add("ph-propx", []string{" a=1", "a =2", "A=3"}, "a", i64)
+	add("ph-propx", []string{"k= v "}, "k", note)
+	add("ph-propx", []string{"n= 42"}, "n", i64)
+	add("ph-propx", []string{"n=42 "}, "n", i64)
 	add("ph-propx", []string{"k=v"}, "", note)
 	add("ph-propx", []string{"=v"}, "", note)
 	add("ph-propx", []string{}, "a", note)
